@@ -79,6 +79,7 @@ func genCaseC01(t *rapid.T) *Case {
 	c := &Case{Schema: s, Graph: g, Doc: d, Vars: vars, Layout: GenLayout(t), Echo: p.Args, ListSeed: rapid.IntRange(0, 1<<20).Draw(t, "listSeed")}
 	c.Assign, c.AnyInstalled = GenAssign(t, g, strategy)
 	c.Warm = GenWarm(t, s, p)
+	c.ViaAPI = rapid.IntRange(0, 4).Draw(t, "schemaViaGoAPI") == 0
 	// operation name
 	var names []string
 	for _, o := range d.Ops {
